@@ -6,6 +6,7 @@
 -/
 import RapidModel.Generated.Translated
 import RapidProofs.FloatBits
+import RapidModel.Engine
 
 namespace Rapid
 
@@ -321,6 +322,49 @@ theorem tr_repeatReject (c rj mn : Nat) (f rej : Bool) (hc : c < 2 ^ 60) (hr : r
     · simp [h1, h2]
     · simp [h1, h2]
   · simp [h1]
+
+/-! ### engine.go: how many test cases run, when Check passes, the seed schedule -/
+
+/-- the loop condition of `findBug` is the model's (`findBugLoop`) -/
+theorem tr_findBugLoopCond (valid invalid checks : Nat) (hv : valid < 2 ^ 58) (hi : invalid < 2 ^ 58) (hc : checks < 2 ^ 58) :
+    Translated.findBugLoopCond (Int64.ofNat checks) (Int64.ofNat invalid) (Int64.ofNat valid) =
+      decide (valid < checks ∧ invalid < checks * invalidChecksMult) := by
+  have e3 : (Int64.ofNat checks * 10).toInt = (checks : Int) * 10 := by
+    rw [Int64.toInt_mul, i64_ofNat_toInt (by omega)]
+    have : (10 : Int64).toInt = 10 := by decide
+    rw [this]; apply Int.bmod_eq_of_le <;> omega
+  have g1 : (Int64.ofNat valid < Int64.ofNat checks) ↔ valid < checks := by
+    rw [Int64.lt_iff_toInt_lt, i64_ofNat_toInt (by omega), i64_ofNat_toInt (by omega)]; omega
+  have g2 : (Int64.ofNat invalid < Int64.ofNat checks * 10) ↔ invalid < checks * invalidChecksMult := by
+    rw [Int64.lt_iff_toInt_lt, e3, i64_ofNat_toInt (by omega)]
+    have : invalidChecksMult = 10 := rfl
+    rw [this]; omega
+  simp only [Translated.findBugLoopCond, g1, g2]
+  by_cases h1 : valid < checks <;> by_cases h2 : invalid < checks * invalidChecksMult <;> simp [h1, h2]
+
+/-- the pass condition of `checkTB` is the model's (`verdict`) -/
+theorem tr_checkTBPassCond (valid checks : Nat) (early : Bool) (hv : valid < 2 ^ 58) (hc : checks < 2 ^ 58) :
+    Translated.checkTBPassCond (Int64.ofNat checks) early (Int64.ofNat valid) =
+      decide (valid = checks ∨ (early = true ∧ valid > 0)) := by
+  have g1 : (Int64.ofNat valid == Int64.ofNat checks) = decide (valid = checks) := by
+    by_cases h : valid = checks
+    · subst h; simp
+    · have : ¬ Int64.ofNat valid = Int64.ofNat checks := by
+        intro he
+        have := congrArg Int64.toInt he
+        rw [i64_ofNat_toInt (by omega), i64_ofNat_toInt (by omega)] at this
+        omega
+      simp [h, this]
+  have g2 : (Int64.ofNat valid > 0) ↔ valid > 0 := by
+    rw [gt_iff_lt, Int64.lt_iff_toInt_lt, i64_ofNat_toInt (by omega), Int64.toInt_zero]; omega
+  simp only [Translated.checkTBPassCond, g1, g2]
+  cases early <;> by_cases h1 : valid = checks <;> by_cases h2 : valid > 0 <;> simp [h1, h2]
+
+/-- the seed of test case `iter` is the previous seed plus `iter` (`findBugLoop`) -/
+theorem tr_findBugSeedStep (seed : UInt64) (iter : Nat) :
+    Translated.findBugSeedStep (Int64.ofNat iter) seed = seed + UInt64.ofNat iter := by
+  simp only [Translated.findBugSeedStep]
+  congr 1
 
 /-! ### the loop of `genUfloatRange` that clears low bits -/
 
